@@ -507,7 +507,14 @@ class Ctx:
             self.results.append(ObligationResult(label, 'unsat', None, dt, backend, list(self.trace), detail, size))
             self.assume(g)
         elif r == z3.sat:
-            m = self.last_solver.model()
+            try:
+                m = self.last_solver.model()
+            except z3.Z3Exception:
+                # the confirming re-run timed out after a `sat` answer: no counter-model to show -> undecided, never a violation
+                self.results.append(ObligationResult(label, 'unknown', None, time.time() - t0, 'z3', list(self.trace),
+                                                     detail + ' reason=sat answer could not be re-confirmed (no model)', size))
+                self.assume(g)
+                return
             dbg = os.environ.get('PYVC_GOAL')
             if dbg:
                 import re as _re
